@@ -10,7 +10,9 @@ HANDLE_OPS = {"Connect", "Disconnect", "Peer", "Unpeer", "AddSubInterface", "Rem
 
 
 def mine(op, clause):
-    return op["op"] in REMOVALS or op["op"] in HANDLE_OPS or "handle" in clause
+    """removals and disconnect/unpeer: every clause; the other calls made through a handle (connect, peer, adding a
+    sub-interface ...) only where the clause is about the handle - their effect on the model is C07's / C09's"""
+    return op["op"] in REMOVALS or "handle" in clause
 
 
 def run(tier, seed):
